@@ -249,6 +249,46 @@ def run(ctx):
                              "the rest of the frame is only written when the application happens to call again", loc=f.loc(bad3[0]))
             else:
                 r3.ok("%s: pending output adds SENDABLE to what the sub-socket waits for" % f.qname, "path exploration")
+    # ... and only ADDS it: what the application awaits is handed down too (the value stored into the sub-socket's condition is
+    # built from the socket's own condition, and every later change of that value is an `|=`)
+    for t in tables:
+        if t.proto not in ("tcp", "tls"):
+            continue
+        f = t.slots["update"]
+        r3.instance("%s: awaited conditions kept" % f.qname)
+        dropped = None
+        nst = 0
+        for b, i, e, lhs, rhs, op in f.stores():
+            ln = f.nodes[f._strip0(lhs)]
+            if not (ln["k"] == "member" and ln.get("field") == "condition" and op == "=" and rhs is not None):
+                continue
+            base = f.nodes[f._strip0(ln["base"])]
+            if base["k"] == "ref" and base.get("dk") == "param":
+                continue
+            nst += 1
+            rn = f.nodes[f._strip0(rhs)]
+            if rn["k"] == "ref" and rn.get("dk") == "local":
+                defs = []
+                for m in f.nodes.values():
+                    if m["k"] == "decl":
+                        defs += [("=", v["init"]) for v in m["vars"] if v.get("did") == rn.get("did") and v.get("init") is not None]
+                    elif m["k"] == "bin" and m["op"] in ("=", "|=", "&=") and f.nodes[f._strip0(m["l"])].get("did") == rn.get("did") and f.nodes[f._strip0(m["l"])]["k"] == "ref":
+                        defs.append((m["op"], m["r"]))
+                own = lambda x: any(f.nodes[y]["k"] == "member" and f.nodes[y].get("field") == "condition" for y in f.walk(x))
+                selfref = lambda x: any(f.nodes[y]["k"] == "ref" and f.nodes[y].get("did") == rn.get("did") for y in f.walk(x))
+                for dop, dx in defs:
+                    if dop == "&=" or (dop == "=" and not own(dx) and not selfref(dx)):
+                        dropped = (dx, dop)
+            elif not any(f.nodes[y]["k"] == "member" and f.nodes[y].get("field") == "condition" for y in f.walk(rhs)):
+                dropped = (rhs, "=")
+        if nst < 1:
+            raise Broken("C04.R3: %s stores no sub-socket condition" % f.name)
+        if dropped:
+            r3.violation("%s:awaited-dropped" % f.name, "%s replaces the condition handed to the sub-socket (`%s %s`) instead of adding to it: while a frame is pending the "
+                         "application's RECEIVABLE interest is not handed down, so input on that connection is not noticed (two-way traffic deadlocks)"
+                         % (f.name, dropped[1], f.show(dropped[0])[:40]), loc=f.loc(dropped[0]))
+        else:
+            r3.ok("%s: the sub-socket waits for everything the application awaits, plus SENDABLE while a frame is pending" % f.qname, "value origin of the stored condition")
     r2.floor(4, "update ops with sub-sockets")
     r3.floor(2, "framing update ops")
 
